@@ -64,7 +64,11 @@ func rawTyped(o runtime.Object, apiVersion, kind string, future bool) runtime.Ra
 	if len(b) > 2 {
 		head = append(head, ',')
 	}
-	return runtime.RawExtension{Raw: append(head, b[1:]...)}
+	raw := append(head, b[1:]...)
+	if future && len(raw)%2 == 0 { // a key stated twice with the same value (legal JSON; the last one counts)
+		raw = append(raw[:len(raw)-1], []byte(`,"kind":"`+kind+`"}`)...)
+	}
+	return runtime.RawExtension{Raw: raw}
 }
 
 // review: the AdmissionReview the API server would send for this case (subResource and requestSubResource both carry the
@@ -150,6 +154,17 @@ func webhookFixture() (nsByName, func(lister admission.PodLister) *admission.Adm
 	}
 }
 
+// oddUIDTail: a uid is an opaque string chosen by the API server's caller; every fourth review carries characters that text
+// formats treat specially (control characters with and without a short JSON escape, DEL, quotes, backslashes, markup, non-ASCII,
+// a rune beyond the BMP, a non-printable one)
+func oddUIDTail(i int) string {
+	if i%4 != 3 {
+		return ""
+	}
+	tails := []string{"\v", "\a", "\x1f", "\x7f", "\t\n", "\"q\"", "\\b", "<&>", "é世", "\U0001F600", "\U000E0001", "\x00", "\u2028", "%s%d", " "}
+	return "-" + tails[(i/4)%len(tails)]
+}
+
 // webhookMixed: n reviews of the given kind ("" = every kind) through the real handler from 16 clients
 func webhookMixed(c *Ctx, n int, kind string, namespaces nsByName, newAdm func(lister admission.PodLister) *admission.Admission) {
 	r := NewRng(c.Seed + 1616)
@@ -198,7 +213,8 @@ func webhookMixed(c *Ctx, n int, kind string, namespaces nsByName, newAdm func(l
 		if a.Obj.Kind == "other" || a.Old.Kind == "other" || a.Obj.Kind == "nil" || a.Old.Kind == "nil" {
 			// the typed side hands the library a ConfigMap / nothing; so does the decoded side
 		}
-		it := &item{a: a, uid: fmt.Sprintf("mixed-%d", i), body: a.review(fmt.Sprintf("mixed-%d", i), i)}
+		uid := fmt.Sprintf("mixed-%d", i) + oddUIDTail(i)
+		it := &item{a: a, uid: uid, body: a.review(uid, i)}
 		func() {
 			defer func() {
 				if rec := recover(); rec != nil {
